@@ -14,7 +14,7 @@ import (
 func init() {
 	register(&Prop{
 		ID: "C13", Level: "exploration",
-		Rule: "one case = a router with 0-5 global middleware, each registered with WithMiddleware (all handlers) or WithMiddlewareFor with a drawn non-empty scope mask (sub-batch: DefaultOptions prepended), 2-5 routes with 0-3 route-specific middleware each, and all five handler kinds reachable (route, no-route, no-method, redirect, options). Every middleware appends its identifier to a per-request trace on entry. Sequential clauses: for each handler kind the trace equals the global middleware whose scope includes the kind, in registration order, followed for routes by the route-specific ones, each exactly once; Update replaces the route-specific part; Route.Handle runs the bare handler; Route.HandleMiddleware runs only the route-specific chain. Concurrent clause: 2-3 tasks create routes through the public Router.NewRoute (then HandleRoute/UpdateRoute) with different route-specific middleware under the seeded scheduler (yield point between applying the options and composing the chain), mixed with tasks that go through Handle/Update; afterwards every route's trace must be its own; in HB mode the same schedules run under the race detector. Non-trivial: at least 3 global middleware or a context switch inside NewRoute; distinct = hash of (configuration, programs, schedule).",
+		Rule: "one case = a router with 0-5 global middleware, each registered with WithMiddleware (all handlers) or WithMiddlewareFor with a drawn non-empty scope mask (sub-batch: DefaultOptions prepended), 2-5 routes with 0-3 route-specific middleware each, and all five handler kinds reachable (route, no-route, no-method, redirect, options), plus two routes that ignore trailing slashes reached directly and with the slash toggled. Every middleware appends its identifier to a per-request trace on entry. Sequential clauses: for each handler kind the trace equals the global middleware whose scope includes the kind, in registration order, followed for routes by the route-specific ones, each exactly once; Update replaces the route-specific part; Route.Handle runs the bare handler; Route.HandleMiddleware runs only the route-specific chain. Concurrent clause: 2-3 tasks create routes through the public Router.NewRoute (then HandleRoute/UpdateRoute) with different route-specific middleware under the seeded scheduler (yield point between applying the options and composing the chain), mixed with tasks that go through Handle/Update; afterwards every route's trace must be its own; in HB mode the same schedules run under the race detector. Non-trivial: at least 3 global middleware or a context switch inside NewRoute; distinct = hash of (configuration, programs, schedule).",
 		Run:  runC13, HBRun: runC13,
 		Quick: 40000, Thorough: 8000000, QuickHB: 6000, ThoroughHB: 800000,
 		Real: []string{"fox.New option processing, applyMiddleware/applyRouteMiddleware, Router.NewRoute, route chains, ServeHTTP dispatch"},
@@ -218,6 +218,21 @@ func runC13(src sim.Source, o Opts) *Result {
 		!check("options", world.Probe{Method: "OPTIONS", Path: "/r0/v"}, model.KOptions, nil) ||
 		!check("redirect", world.Probe{Method: "GET", Path: "/r0/v/"}, model.KRedirect, nil) {
 		return res
+	}
+	// a route that ignores trailing slashes, reached with the slash toggled (its own dispatch branch in ServeHTTP): same
+	// chain as a direct match
+	{
+		igMW := []int{296, 297}[:src.Intn("nigmw", 3)]
+		for _, def := range []struct{ pattern, direct, toggled string }{{"/ig/{x}", "/ig/v", "/ig/v/"}, {"/igs/{x}/", "/igs/v/", "/igs/v"}} {
+			if _, err := w.R.Handle("GET", def.pattern, world.Handler(90), world.FoxOpts(90, world.RouteOpt{MW: igMW, TS: 1})...); err != nil {
+				res.Trouble = "ignore-ts route: " + err.Error()
+				return res
+			}
+			if !check("ignore-ts route, direct", world.Probe{Method: "GET", Path: def.direct}, model.KRoute, igMW) ||
+				!check("ignore-ts route, slash toggled", world.Probe{Method: "GET", Path: def.toggled}, model.KRoute, igMW) {
+				return res
+			}
+		}
 	}
 	// Route.Handle: bare; Route.HandleMiddleware: route-specific only
 	r0 := routes[src.Intn("pickroute", len(routes))]
